@@ -26,7 +26,7 @@ def gen_cases(ctx):
     rng = ctx.rng
     th = ctx.tier == "thorough"
     cases, weights = [], []
-    ncurves = 2600 if th else 60
+    ncurves = 2600 if th else 90
     for ci in range(ncurves):
         n = rng.choice([2, 2, 3, 3, 4, 5, 6, 7, 8, 9, 10, 11, 12])
         spacing, ks = cr.gen_keys(rng, n)
